@@ -95,8 +95,10 @@ class Scenario:
                 filler += b"\n"
             elif x < 0.18:
                 filler += b" "
+            elif x < 0.20:
+                filler += b"\r"                 # carriage returns are bytes like any other (files are opened in Text mode)
             else:
-                filler += bytes([rnd.choice(b"abcdefghijklmnopqrstuvwxyz0123456789%{}")])
+                filler += bytes([rnd.choice(b"abcdefghijklmnopqrstuvwxyz0123456789%{}\r")])
         self.payload[rid] = bytes(head + filler)
         self.rday[rid] = day
         return rid
@@ -251,11 +253,26 @@ def gen_history(rnd, sid, focus, n_ops=None):
         opts |= 2
         N = rnd.choice([0, 2, 2, 3, 4, -1, 1])
         weights = {"send": 0.55, "time": 0.27, "day": 0.6}
-    s = Scenario(sid, fname, "rot", L, N, opts, now=(2, rnd.choice([0, 7, 500])))
+    # rotated files of *today* whose modification times do not follow their indices (a directory restored file by
+    # file, a clock that was set back): only without a retention limit, where nothing depends on those times
+    shuffled = N <= 0 and L > 0 and rnd.random() < 0.3
+    s = Scenario(sid, fname, "rot", L, N, opts, now=(2, 500 if shuffled else rnd.choice([0, 7, 500])))
     # what an earlier life of the same sink may have left behind (within the configured limits), plus
     # files that only look similar
     minlen = 8
-    if rnd.random() < 0.35 and N != 1:
+    if shuffled:
+        k = rnd.randint(2, 4)
+        mts = rnd.sample(range(10, 400, 10), k)
+        for j in range(k):
+            s.plant_log(rnd, rotated_name(fname, 2, j + 1, gz=bool(opts & 4) and rnd.random() < 0.5),
+                        [rnd.choice(size_choices(L, minlen))], 2, (2, mts[j]), gz=False)
+            if s.plants[-1]["name"].endswith(".gz"):
+                import gzip
+                s.plants[-1]["bytes"] = gzip.compress(s.plants[-1]["bytes"], mtime=0)
+        if rnd.random() < 0.5:
+            s.plant_log(rnd, fname, [rnd.choice(size_choices(L, minlen))], 2, (2, 450))
+        s.tags.add("shuffled-mtimes")
+    elif rnd.random() < 0.35 and N != 1:
         keep = (N - 1) if N >= 2 else 3
         for j in range(rnd.randint(0, min(keep, 2))):
             lens = [rnd.choice(size_choices(L, minlen))]
